@@ -28,6 +28,10 @@ CLAIMED = {
   "text": "Bounded symbolic model checking of the conversion layer between wire messages and the node's block/header/transaction/group objects (pbTo*/ *ToPb, Marshal*/UnMarshal*, GenHash): no panic for any presence pattern of optional fields; a header with symbolic integers, instants in three zones, prove values with leading zero bytes, optional byte fields and request-id maps keeps its content and its identifying hash through serialise/parse.",
   "note": "Trusted: gosym, z3, and the library codecs (protobuf, encoding/json) modelled by contract: identity on message structs / injective serialisation; SHA-256 as an injective uninterpreted function. The protobuf wire decoder on raw bytes is outside.",
  },
+ "C04": {
+  "text": "Bounded symbolic model checking of the real AccountDB journal: for every mutator (15 kinds x 3 accounts x slots/amounts, symbolic value byte), one and two levels of Snapshot/Revert, from a committed state reopened cold and optionally dirtied, all observers answer as at the snapshot and the state root equals that of a twin on which the reverted operations never ran.",
+  "note": "Trusted: gosym and its models, z3. Four instances of one genuine defect are listed as known findings (Empty() not restored after reverting a storage write on an account without cached storage). Histories of at most three mutators.",
+ },
 }
 PENDING = "check not built yet in this session (planned, see DESIGN.md section 5)"
 NA = {
